@@ -15,7 +15,7 @@ mod items;
 
 use std::panic::{catch_unwind, AssertUnwindSafe};
 
-use darklua_core::generator::{DenseLuaGenerator, LuaGenerator, ReadableLuaGenerator};
+use darklua_core::generator::{DenseLuaGenerator, LuaGenerator, ReadableLuaGenerator, TokenBasedLuaGenerator};
 use darklua_core::nodes::*;
 use darklua_core::verif_hooks::generator_utils as utils;
 use darklua_core::Parser;
@@ -70,6 +70,16 @@ pub fn normalize(block: &Block) -> Block {
     let mut block = block.clone();
     DefaultVisitor::visit_block(&mut block, &mut StripParentheses);
     block
+}
+
+/// the token-based generator (`retain_lines`) on a tree without tokens
+fn token_based(block: &Block) -> Option<String> {
+    catch_unwind(AssertUnwindSafe(|| {
+        let mut generator = TokenBasedLuaGenerator::new("");
+        generator.write_block(block);
+        generator.into_string()
+    }))
+    .ok()
 }
 
 fn reparse(block: &Block, code: &Option<String>) -> &'static str {
@@ -480,6 +490,46 @@ fn prec() {
         println!("right_unary {} {}", i, flags(gen::UNARY_OPERATORS.iter().map(|u| o.right_needs_parentheses(&unary(*u)))));
     }
     println!("unary_operand {}", flags(ops.iter().map(|o| !o.precedes_unary_expression())));
+    // type casts: TypeCastExpression::needs_parentheses over the inner kinds, and left_needs_parentheses of a
+    // cast to a bare type name / to a type with parameters
+    let cast_to = |t: Type| Expression::from(TypeCastExpression::new(a(), t));
+    let bare = || Type::from(TypeName::new("T"));
+    let param = || Type::from(TypeName::new("T").with_type_parameter(Type::from(TypeName::new("P"))));
+    let field = || Type::from(TypeField::new("M", TypeName::new("T")));
+    println!(
+        "cast_inner {}",
+        flags(
+            [
+                Expression::from(BinaryExpression::new(BinaryOperator::Plus, a(), a())),
+                Expression::from(UnaryExpression::new(UnaryOperator::Minus, a())),
+                cast_to(bare()),
+            ]
+            .iter()
+            .map(TypeCastExpression::needs_parentheses)
+        )
+    );
+    for (i, o) in ops.iter().enumerate() {
+        println!(
+            "left_cast {} {}",
+            i,
+            flags([cast_to(bare()), cast_to(param())].iter().map(|e| o.left_needs_parentheses(e)))
+        );
+    }
+    let mut cast_bad = 0;
+    for o in ops {
+        if o.left_needs_parentheses(&cast_to(field())) != o.left_needs_parentheses(&cast_to(bare())) {
+            cast_bad += 1; // mod.T must be treated as a bare name
+        }
+        for t in [bare(), param(), field()] {
+            if o.right_needs_parentheses(&cast_to(t)) {
+                cast_bad += 1; // a cast on the right is never wrapped
+            }
+        }
+        if o.left_needs_parentheses(&cast_to(Type::from(OptionalType::new(TypeName::new("T"))))) {
+            cast_bad += 1; // T? is not a bare name
+        }
+    }
+    println!("castcheck {}", cast_bad);
     // the unary-operand rule lives in the generators: read it back from their output
     let mut bad = 0;
     for o in ops {
@@ -523,6 +573,8 @@ enum Tree {
     Bin(usize, Box<Tree>, Box<Tree>),
     Un(usize, Box<Tree>),
     Paren(Box<Tree>),
+    /// cast to: 0 `T`, 1 `T<P>`, 2 `M.T`, 3 `T?`  (0 and 2 are bare type names)
+    Cast(usize, Box<Tree>),
 }
 
 impl Tree {
@@ -555,6 +607,112 @@ impl Tree {
                 polish.push("P".into());
                 let x = x.build(next, polish);
                 ParentheseExpression::new(x).into()
+            }
+            Tree::Cast(kind, x) => {
+                polish.push(format!("C{}", if *kind == 0 || *kind == 2 { 0 } else { 1 }));
+                let x = x.build(next, polish);
+                TypeCastExpression::new(x, cast_type(*kind)).into()
+            }
+        }
+    }
+}
+
+fn cast_type(kind: usize) -> Type {
+    match kind {
+        0 => TypeName::new("T").into(),
+        1 => TypeName::new("T").with_type_parameter(Type::from(TypeName::new("P"))).into(),
+        2 => TypeField::new("M", TypeName::new("T")).into(),
+        3 => Type::from(OptionalType::new(TypeName::new("T"))),
+        4 => FunctionType::new(Type::from(TypeName::new("T"))).into(), // () -> T : ends with a bare name
+        5 => Type::from(UnionType::new(TypeName::new("A"), TypeName::new("T"))),
+        6 => Type::from(IntersectionType::new(TypeName::new("A"), TypeName::new("T"))),
+        _ => Type::from(ArrayType::new(TypeName::new("T"))),
+    }
+}
+
+/// Gap "trailing cast": left operands of a comparison whose RIGHT spine (binary right operand,
+/// unary operand, if-expression else result, nested casts) ends in a cast, for every kind of
+/// type, with the left-spine-only and explicit-parenthese controls; all three generators.
+fn casts() {
+    let at = || Box::new(Tree::Atom);
+    let operators = [4usize, 5, 6, 7, 2, 3, 8, 15, 0]; // < <= > >= == ~= + .. and
+    let mut id = 0usize;
+    let emit = |id: &mut usize, expression: Expression, polish: String, tag: &str| {
+        let block = Block::default().with_last_statement(ReturnStatement::one(expression));
+        for span in [1usize, 7, 1_000_000_000] {
+            let d = dense(&block, span);
+            let r = readable(&block, span);
+            let t = token_based(&block);
+            let h = |x: &Option<String>| x.as_ref().map(|s| hex_or_dash(s.as_bytes())).unwrap_or_else(|| "PANIC".into());
+            println!(
+                "cast {} {} {} {} {} {} {} {} {} {}",
+                *id, span, polish, h(&d), h(&r), h(&t),
+                reparse(&block, &d), reparse(&block, &r), reparse(&block, &t), tag
+            );
+            *id += 1;
+        }
+    };
+    for kind in 0..4usize {
+        let c = |x: Box<Tree>| Box::new(Tree::Cast(kind, x));
+        let lefts: Vec<(&str, Tree)> = vec![
+            ("direct", Tree::Cast(kind, at())),
+            ("binary_right", Tree::Bin(8, at(), c(at()))),
+            ("unary_operand", Tree::Un(1, c(at()))),
+            ("binary_unary", Tree::Bin(10, at(), Box::new(Tree::Un(2, c(at()))))),
+            ("right_spine_2", Tree::Bin(8, at(), Box::new(Tree::Bin(10, at(), c(at()))))),
+            ("right_spine_wrapped", Tree::Bin(10, at(), Box::new(Tree::Bin(8, at(), c(at()))))),
+            ("nested_cast", Tree::Cast(kind, Box::new(Tree::Cast(1, at())))),
+            ("nested_cast_bare_inside", Tree::Cast(1, Box::new(Tree::Cast(kind, at())))),
+            ("left_spine_only", Tree::Bin(8, c(at()), at())),
+            ("explicit_paren", Tree::Paren(c(at()))),
+            ("cast_of_paren", Tree::Bin(9, at(), c(Box::new(Tree::Paren(Box::new(Tree::Bin(8, at(), at()))))))),
+            ("cast_of_binary", Tree::Cast(kind, Box::new(Tree::Bin(8, at(), at())))),
+            ("cast_of_unary", Tree::Cast(kind, Box::new(Tree::Un(1, at())))),
+        ];
+        for (lname, left) in &lefts {
+            for o in operators {
+                let tree = Tree::Bin(o, Box::new(left.clone()), at());
+                let mut polish = Vec::new();
+                let mut next = 0;
+                let expression = tree.build(&mut next, &mut polish);
+                emit(&mut id, expression, polish.join(","), &format!("{}:k{}:left:o{}", lname, kind, o));
+                // control: the same operand on the right of the operator
+                let tree = Tree::Bin(o, at(), Box::new(left.clone()));
+                let mut polish = Vec::new();
+                let mut next = 0;
+                let expression = tree.build(&mut next, &mut polish);
+                emit(&mut id, expression, polish.join(","), &format!("{}:k{}:right:o{}", lname, kind, o));
+            }
+        }
+    }
+    // outside the modelled fragment (round trip through darklua's parser only): if-expressions whose else
+    // result ends in a cast, and types that END with a bare name (function return, union, intersection)
+    let a = |n: &str| Expression::identifier(n);
+    for kind in 0..8usize {
+        let cast = |x: Expression| -> Expression { TypeCastExpression::new(x, cast_type(kind)).into() };
+        let lefts: Vec<(&str, Expression)> = vec![
+            ("direct", cast(a("b"))),
+            ("binary_right", BinaryExpression::new(BinaryOperator::Plus, a("a"), cast(a("b"))).into()),
+            ("if_else", IfExpression::new(a("c"), a("x"), cast(a("b"))).into()),
+            (
+                "if_else_binary",
+                IfExpression::new(a("c"), a("x"), BinaryExpression::new(BinaryOperator::Plus, a("a"), cast(a("b")))).into(),
+            ),
+            (
+                "binary_if_else",
+                BinaryExpression::new(BinaryOperator::And, a("a"), IfExpression::new(a("c"), a("x"), cast(a("b")))).into(),
+            ),
+            ("unary_if_else", UnaryExpression::new(UnaryOperator::Not, IfExpression::new(a("c"), a("x"), cast(a("b")))).into()),
+            (
+                "if_elseif_else",
+                IfExpression::new(a("c"), a("x"), cast(a("b"))).with_branch(a("d"), cast(a("y"))).into(),
+            ),
+        ];
+        for (lname, left) in &lefts {
+            for o in operators {
+                let expression: Expression =
+                    BinaryExpression::new(gen::BINARY_OPERATORS[o], left.clone(), a("z")).into();
+                emit(&mut id, expression, "-".into(), &format!("{}:k{}:left:o{}", lname, kind, o));
             }
         }
     }
@@ -682,6 +840,30 @@ fn stmts() {
         "ifexp_genparen".into(),
         IfExpression::new(id("c"), id("a"), bin(BinaryOperator::Asterisk, id("a"), sum())).into(),
     ));
+    // every remaining Expression variant as the final expression, plain and nested
+    let instantiation = || -> Expression {
+        TypeInstantiationExpression::new(Prefix::from_name("f"), vec![TypeName::new("T").into()]).into()
+    };
+    endings.push(("type_instantiation".into(), instantiation()));
+    endings.push(("type_instantiation_2".into(), TypeInstantiationExpression::new(
+        FieldExpression::new(Prefix::from_name("m"), "f"),
+        vec![TypeName::new("T").into(), TypeName::new("U").into()],
+    ).into()));
+    endings.push(("unary_type_instantiation".into(), un(UnaryOperator::Minus, instantiation())));
+    endings.push(("binary_type_instantiation".into(), bin(BinaryOperator::Plus, id("a"), instantiation())));
+    endings.push(("ifexp_type_instantiation".into(), IfExpression::new(id("c"), id("a"), instantiation()).into()));
+    endings.push(("not_ifexp_type_instantiation".into(), un(UnaryOperator::Not, IfExpression::new(id("c"), id("a"), instantiation()).into())));
+    endings.push(("call_of_type_instantiation".into(), FunctionCall::from_prefix(Prefix::TypeInstantiation(Box::new(
+        TypeInstantiationExpression::new(Prefix::from_name("f"), vec![TypeName::new("T").into()]),
+    ))).into()));
+    endings.push(("cast_param".into(), TypeCastExpression::new(id("a"), cast_type(1)).into()));
+    endings.push(("cast_function".into(), TypeCastExpression::new(id("a"), cast_type(4)).into()));
+    endings.push(("unary_cast".into(), un(UnaryOperator::Minus, TypeCastExpression::new(id("a"), cast_type(0)).into())));
+    endings.push(("binary_index".into(), bin(BinaryOperator::Plus, id("a"), IndexExpression::new(Prefix::from_name("t"), gen::number("1")).into())));
+    endings.push(("unary_call".into(), un(UnaryOperator::Length, FunctionCall::from_name("f").into())));
+    endings.push(("ifexp_name".into(), IfExpression::new(id("c"), gen::number("1"), id("a")).into()));
+    endings.push(("ifexp_number".into(), IfExpression::new(id("c"), id("a"), gen::number("1")).into()));
+    endings.push(("false".into(), Expression::from(false)));
     let paren = |n: &str| Prefix::Parenthese(Box::new(ParentheseExpression::new(Expression::identifier(n))));
     let seconds: Vec<(&str, Statement)> = vec![
         ("paren_call", Statement::Call(FunctionCall::from_prefix(paren("g")))),
@@ -710,12 +892,13 @@ fn stmts() {
                     let (da, _, _) = gen_one(vec![a.clone()], span);
                     let (db, _, _) = gen_one(vec![b.clone()], span);
                     let (dab, rab, block) = gen_one(vec![a.clone(), b.clone()], span);
+                    let tab = token_based(&block);
                     let h = |t: &Option<String>| t.as_ref().map(|s| hex_or_dash(s.as_bytes())).unwrap_or_else(|| "PANIC".into());
                     println!(
-                        "st {} {} {} {} {} {} {} {} {} {}:{}:{} nl={},{}",
+                        "st {} {} {} {} {} {} {} {} {} {}:{}:{} nl={},{} {} {}",
                         idn, span, expr_end, h(&da), h(&db), h(&dab), h(&rab),
                         reparse(&block, &dab), reparse(&block, &rab), ename, fname, sname,
-                        newline_flag(&dab), newline_flag(&rab)
+                        newline_flag(&dab), newline_flag(&rab), h(&tab), reparse(&block, &tab)
                     );
                     idn += 1;
                 }
@@ -904,6 +1087,74 @@ fn strings(seed: u64, random: u64) {
     }
 }
 
+// ---- parsed sources through `process` -----------------------------------------------------------
+
+fn process_source(source: &str, generator: darklua_core::GeneratorParameters) -> Option<String> {
+    use darklua_core::{process, Configuration, Options, Resources};
+    catch_unwind(AssertUnwindSafe(|| {
+        let resources = Resources::from_memory();
+        resources.write("src/in.lua", source).ok()?;
+        let configuration = Configuration::empty().with_generator(generator);
+        let options = Options::new("src/in.lua").with_output("out/out.lua").with_configuration(configuration);
+        process(&resources, options).ok()?.result().ok()?;
+        resources.get("out/out.lua").ok()
+    }))
+    .ok()
+    .flatten()
+}
+
+/// two statements written in source form with an explicit ";" (first: a statement ending with each
+/// kind of expression; second: a statement starting with "("), through the front door
+/// (`darklua_core::process`, rules: []) with each generator and several column spans; line:
+/// `src <id> <generator> <span> <source hex> <output hex> <flag> nl=<n>`
+fn sources() {
+    use darklua_core::GeneratorParameters;
+    let endings = [
+        "f<<T>>", "m.f<<T, U>>", "-f<<T>>", "a + f<<T>>", "if c then a else f<<T>>", "not if c then a else f<<T>>",
+        "f<<T>>()", "b :: T", "b :: T<P>", "-b :: T", "`s{v}`", "function() end", "{}", "{1}", "...", "b", "b.c", "b[1]",
+        "f()", "f'x'", "f{}", "(b)", "'s'", "1", "nil", "true", "a * (c + 1)", "-(c + 1)", "not b", "#b", "a .. b",
+        "if c then 1 else b", "if c then b else 1", "2 ^ (c + 1)",
+    ];
+    let firsts = ["local l = {}", "x = {}", "x, y = 1, {}", "x += {}", "repeat until {}"];
+    let seconds = ["(g)()", "(g).h()", "(g):m()", "(g).x = 1", "(g)[1] = 1", "(g).x += 1", "(g)()()", "g()"];
+    let mut id = 0usize;
+    for ending in endings {
+        for first in firsts {
+            for second in seconds {
+                let source = format!("{};\n{}\n", first.replace("{}", ending), second);
+                let original = match catch_unwind(AssertUnwindSafe(|| Parser::default().parse(&source))) {
+                    Ok(Ok(block)) => block,
+                    _ => {
+                        println!("src {} unparsable 0 {} - skip nl=0", id, hex(source.as_bytes()));
+                        id += 1;
+                        continue;
+                    }
+                };
+                let mut generators: Vec<(&str, usize, GeneratorParameters)> =
+                    vec![("retain_lines", 0, GeneratorParameters::RetainLines)];
+                for span in [0usize, 1, 7, 80] {
+                    generators.push(("dense", span, GeneratorParameters::Dense { column_span: span }));
+                    generators.push(("readable", span, GeneratorParameters::Readable { column_span: span }));
+                }
+                for (name, span, parameters) in generators {
+                    let output = process_source(&source, parameters);
+                    println!(
+                        "src {} {} {} {} {} {} nl={}",
+                        id,
+                        name,
+                        span,
+                        hex(source.as_bytes()),
+                        output.as_ref().map(|s| hex_or_dash(s.as_bytes())).unwrap_or_else(|| "FAILED".into()),
+                        reparse(&original, &output),
+                        newline_flag(&output)
+                    );
+                    id += 1;
+                }
+            }
+        }
+    }
+}
+
 fn main() {
     let args: Vec<String> = std::env::args().skip(1).collect();
     let args = &args[..];
@@ -914,6 +1165,8 @@ fn main() {
         "stream" => stream(arg_u64(args, "--seed", 1), arg_u64(args, "--n", 100)),
         "prec" => prec(),
         "calls" => calls(),
+        "casts" => casts(),
+        "sources" => sources(),
         "strings" => strings(arg_u64(args, "--seed", 1), arg_u64(args, "--random", 40)),
         "stmts" => stmts(),
         "ops" => ops(
